@@ -27,7 +27,7 @@ pub fn def() -> PropDef {
         check,
         genome_len: 420,
         quick_cases: 60_000,
-        thorough_cases: 3_000_000,
+        thorough_cases: 2_000_000,
         rule: "case = (decoder in {G1,G2} x {raw, 0x04, 0x02/0x03}, byte string of length 0..=140): valid encodings built from reference coordinates, then structured corruption (any of 256 prefixes, single-bit and single-byte flips, truncate/extend by 1..3, a coordinate replaced by c+q / q / q+1 / 2^256-1 / 0, halves of an Fq2 swapped, x/y swapped, y negated, encodings of another format or group, all-zero, all-0xFF, x carrying no point, twist points outside G2) and unstructured bytes with lengths weighted towards the format lengths +-1; oracle: independent decoder (length, prefix, every coordinate < q, curve equation or square test + parity, r*P = O for G2); Ok iff oracle valid, decoded point equals the oracle's, re-encoding equals the input, never a panic; run in release and dbg profiles; non-trivial = input is not the library's own encoding of a normalised point; distinct by (decoder, bytes)",
         required,
         enumerate: Some(enumerate),
